@@ -1,0 +1,24 @@
+// Verification hooks (compiled only with `--cfg cc6502_verif`; absent from normal builds).
+//
+// `tick(site)` is called at the head of every loop / recursive entry point whose number of
+// iterations depends on the input. A simulation harness may install a per-thread callback
+// to (a) count steps deterministically (bounded liveness) and (b) use the call as a
+// scheduling point. Without an installed callback `tick` does nothing.
+
+use std::cell::Cell;
+
+thread_local! {
+    static TICK: Cell<Option<fn(&'static str)>> = const { Cell::new(None) };
+}
+
+/// Installs (or removes, with `None`) the tick callback of the calling thread.
+pub fn set_tick(f: Option<fn(&'static str)>) {
+    TICK.with(|t| t.set(f));
+}
+
+#[inline]
+pub fn tick(site: &'static str) {
+    if let Some(f) = TICK.with(|t| t.get()) {
+        f(site);
+    }
+}
